@@ -402,6 +402,12 @@ class Engine:
     def stmt_If(self, node, s, fr):
         c = to_bool(self.truthy(self.eval(node.test, s, fr), s))
         if c.concrete:
+            bh = fr.contract.branches.get(fr.if_index.get(id(node)))
+            if bh is not None:
+                fr.used_ifs.add(fr.if_index[id(node)])
+                fn_ = bh.get('then' if c.v else 'orelse')
+                if fn_ is not None:
+                    self.ghost_steps(fr, s, fn_(Ctx(dict(s.env), s.heap, s.lists, a=fr.entry_ctx, config=fr.config)), node.lineno)
             return self.exec_block(node.body if c.v else node.orelse, s, fr)
         base_len = len(s.pc)
         s1 = s.clone()
